@@ -218,3 +218,49 @@ theorem locus_canon (name mol top dv : Bytes) (n : Nat) (d : Date) (k2 k3 k5 : N
     sp_length]
 
 end Gts.GenBank
+
+namespace Gts.GenBank
+open Gts.Pars
+
+theorem sp_cons_blank (a b : Nat) (X : Bytes) : sp a ++ (32 :: (sp b ++ X)) = sp (a + b + 1) ++ X := by
+  have : (32 : UInt8) :: (sp b ++ X) = sp 1 ++ (sp b ++ X) := rfl
+  rw [this, ← List.append_assoc, ← List.append_assoc, sp_add, sp_add]
+  congr 2; omega
+
+theorem topologyText_ok (t : Int) (h : t = 0 ∨ t = 1) :
+    wordOk (topologyText t) = true ∧ ∃ k5, 9 - (topologyText t).length = k5 + 1 := by
+  rcases h with rfl | rfl
+  · exact ⟨by decide, 2, by decide⟩
+  · exact ⟨by decide, 0, by decide⟩
+
+/-- **LOCUS line round trip.**  The line `GenBank.String` writes for fields in the domain `locusOk`
+and a non-negative length, followed by a line feed, is read by `genbankLocusParser` as: field
+depth 12, the same name, length, molecule, topology word, division and date. -/
+theorem locus_roundtrip (f : Fields) (length : Int) (rest : Bytes) (stk : List Bytes)
+    (h : locusOk f length = true) :
+    locusParser ⟨locusLine f length ++ 10 :: rest, stk⟩ =
+      (.ok ⟨12, f.locusName, length, f.molecule, topologyText f.topology, f.division, f.date⟩, ⟨rest, stk⟩) := by
+  simp only [locusOk, Bool.and_eq_true, Bool.or_eq_true, beq_iff_eq, decide_eq_true_eq,
+    List.isEmpty_iff] at h
+  obtain ⟨⟨⟨⟨⟨hname, hmol⟩, htop⟩, hdv⟩, hd⟩, hl0, hl1⟩ := h
+  obtain ⟨htw, k5, hk5⟩ := topologyText_ok f.topology htop
+  obtain ⟨n, rfl⟩ : ∃ n : Nat, length = (n : Int) := ⟨length.toNat, by omega⟩
+  have hdig : itoaB (n : Int) = natDigits n := by
+    simp [itoaB]
+  have hdv' : f.division = [] ∨ (f.division.length = 3 ∧ f.division.all isUpper = true) := hdv
+  have e : locusLine f (n : Int) ++ 10 :: rest =
+      locusCanon f.locusName (natDigits n) f.molecule (topologyText f.topology)
+        ((17 - f.locusName.length) + (10 - (natDigits n).length)) (6 - f.molecule.length) k5
+        (f.division ++ 32 :: (f.date.text ++ 10 :: rest)) := by
+    have e1 : padRight 12 (bs "LOCUS") = bs "LOCUS" ++ sp 7 := by decide
+    have e2 : bs " bp " = bs " bp" ++ [32] := by decide
+    simp only [locusLine, locusCanon, hdig, e1, e2, padRight, padLeft, List.append_assoc, List.cons_append,
+      List.nil_append, hk5]
+    have h7 : sp (12 - (bs "LOCUS").length) = sp 7 := by decide
+    have hb : ∀ (c : Nat) (X : Bytes), (32 : UInt8) :: (sp c ++ X) = sp (c + 1) ++ X := by
+      intro c X; rw [sp_succ]; rfl
+    rw [h7, sp_cons_blank, hb]
+  rw [e]
+  exact locus_canon _ _ _ _ n _ _ _ _ rest stk hname hmol htw hdv' hd (by omega)
+
+end Gts.GenBank
